@@ -197,13 +197,16 @@ def roundtrip(r):
 
 
 def roundtrip_class(r):
-    """input class of an accepted input, decided on its parsed arguments: documented | empty-key | other"""
+    """input class of an accepted input, decided on its parsed arguments: documented | empty-key (`=value`: key "" is dropped by
+    serialize) | translation-without-quote (`_(` + non-quote) | other"""
     try:
         if U.documented_ast(r["attrs"]):
             return "documented"
     except RecursionError:
         return "other"
-    return "empty-key" if U.has_empty_key(r["attrs"]) else "other"
+    if U.has_empty_key(r["attrs"]):
+        return "empty-key"
+    return "translation-without-quote" if U.has_odd_translation(r["attrs"]) else "other"
 
 
 def template_class(source):
@@ -289,15 +292,19 @@ def impl_steps(text):
     def glob_(frame, event, arg):
         return loc if frame.f_code is code else None
     old = sys.gettrace()
-    sys.settrace(glob_)
     try:
-        try:
-            tp.parse_tag(text, None)
-            r = "ok"
-        except Exception as e:  # noqa
-            r = exc_name(e)
-    finally:
+        with deadline():
+            sys.settrace(glob_)
+            try:
+                tp.parse_tag(text, None)
+                r = "ok"
+            except Exception as e:  # noqa
+                r = exc_name(e)
+            finally:
+                sys.settrace(old)
+    except Hang:
         sys.settrace(old)
+        r = "Hang"
     return r, tuple(cnt[l] for l in lines)
 
 
@@ -393,9 +400,11 @@ def _sized(fam, n):
 
 
 def _ratio_bad(ts):
-    """x4 length => at most x16 time (x2 => x4); slack 3x, 1 ms floor and 10 ms allowance against timer noise"""
+    """quadratic growth: x4 length => x16 time and x2 => x4.  Reported when the x4 run exceeds 3 * 16 times the x1 run (1 ms floor,
+    10 ms allowance against timer noise) AND 1.5 * 4 times the x2 run - cubic growth gives 64 and 8.  (Both, because a family
+    need not grow regularly: a step between two sizes is not a growth rate.)"""
     base = max(ts[0], 0.001)
-    return ts[2] > 3 * 16 * base + 0.01 or ts[1] > 3 * 4 * base + 0.01
+    return ts[2] > 3 * 16 * base + 0.01 and ts[2] > 1.5 * 4 * max(ts[1], 0.001) + 0.01
 
 
 def scaling(chk, thorough):
@@ -410,9 +419,17 @@ def scaling(chk, thorough):
         pairs.append((name, "parse_template", fam))
         pairs.append((name, "template", fam))
     limit = 20.0
-    probe = T.run_cases([{"target": tg, "text": _sized(f, 500)} for _, tg, f in pairs], limit=limit)
+    probe = T.run_cases([{"target": tg, "text": _sized(f, 500)} for _, tg, f in pairs], limit=limit, max_hangs=2)
     jobs = []
     for (name, tg, f), pr in zip(pairs, probe):
+        if pr["outcome"] in ("HANG", "HANG-HARD", "DIED"):
+            text = _sized(f, 500)
+            chk.fail(T_HANG, "%s did not return within %.0f s on a %d-character input (family %s)" % (tg, limit, len(text), name),
+                     {"kind": "time", "target": tg, "text": text, "limit_s": limit, "family": name})
+            continue
+        if pr["outcome"] == "SKIPPED":
+            chk.extra["scaling_skipped"] = "probe stopped after 2 inputs of 500 characters hung"
+            continue
         t500 = max(pr["secs"], 2e-5)
         want = 500 * 0.002 / t500                      # length at which a linear scanner needs 2 ms
         cap = 500 * (1.5 / t500) ** 0.5 / 4            # length n0 at which a quadratic one needs 1.5 s for 4*n0
@@ -432,7 +449,7 @@ def scaling(chk, thorough):
 
     def run_chunk(ix):
         sub = [cases[3 * j + m] for j in ix for m in range(3)]
-        out = T.run_cases(sub, limit=limit, tag="sc%d" % ix[0] if ix else "sc")
+        out = T.run_cases(sub, limit=limit, tag="sc%d" % ix[0] if ix else "sc", max_hangs=2)
         for q, j in enumerate(ix):
             for m in range(3):
                 res[3 * j + m] = out[3 * q + m]
@@ -441,16 +458,22 @@ def scaling(chk, thorough):
     table = {}
     for j, (name, tg, f, n0) in enumerate(jobs):
         rs = res[3 * j:3 * j + 3]
+        if any(r["outcome"] == "SKIPPED" for r in rs):
+            chk.extra["scaling_skipped"] = "a child stopped after 2 hangs"
+            continue
         ts = [r["secs"] for r in rs]
         hang = [r["outcome"] for r in rs if r["outcome"] in ("HANG", "HANG-HARD", "DIED")]
-        bad = bool(hang) or _ratio_bad(ts)
+        same = len({r["outcome"] for r in rs}) == 1      # a family whose outcome class changes with the size is not a growth series
+        if not same:
+            chk.extra.setdefault("scaling_not_judged (outcome class differs between sizes)", []).append("%s/%s" % (name, tg))
+        bad = bool(hang) or (same and _ratio_bad(ts))
         if bad:
             # measure again, alone, before reporting
             again = T.run_cases([dict(cases[3 * j + m], reps=4) for m in range(3)], limit=limit)
             ts2 = [r["secs"] for r in again]
             hang = [r["outcome"] for r in again if r["outcome"] in ("HANG", "HANG-HARD", "DIED")]
             chk.extra.setdefault("scaling_remeasured", []).append({"family": name, "target": tg, "first": ts, "second": ts2})
-            ts, bad = ts2, bool(hang) or _ratio_bad(ts2)
+            ts, bad = ts2, bool(hang) or (same and _ratio_bad(ts2))
         table["%s/%s" % (name, tg)] = {"n0": n0, "times_n_2n_4n": [round(x, 5) for x in ts]}
         chk.count(("scaling", name, tg), True, kind="scaling")
         for r, m in zip(rs, (1, 2, 4)):
@@ -719,6 +742,9 @@ def run(tier, seed):
         for t in step_texts:
             cls, (na, ns, np_) = impl_steps(t)
             chk.count(("steps", t), na + ns + np_ >= 4, kind="steps")
+            if cls == "Hang":
+                chk.fail(T_HANG, "parse_tag(%r) did not return within %.0f s" % (t[:80], WATCHDOG_S), {"kind": "parse_serialize", "text": t, "exception": "Hang"})
+                continue
             if na + ns + np_ > 5 * len(t) + 4:
                 chk.fail(T_STEPS, "parse_tag(%r) executed %d+%d+%d loop bodies on %d characters (> 5*len+4)" % (t[:80], na, ns, np_, len(t)),
                          {"kind": "steps", "text": t, "iterations": [na, ns, np_]})
@@ -819,7 +845,10 @@ def run(tier, seed):
         # ---- 5. time: hangs on small adversarial inputs, growth at x1 / x2 / x4 ----
         hang_sweep(chk, thorough)
         phase("hang-sweep")
-        scaling(chk, thorough)
+        if chk.extra["hang_sweep"]["hangs"]:
+            chk.extra["scaling_skipped"] = "the hang sweep already found inputs that do not return; growth is not measured on this tree"
+        else:
+            scaling(chk, thorough)
         phase("scaling")
         # block tags nested k deep: Django's recursive-descent Parser (outside the anchored files) - observed, not judged
         obs = {}
